@@ -513,9 +513,51 @@ func ruleCloseOnce(c *Ctx, rule string) {
 					nilGuard = reset
 				}
 			}
+			// taken out of its table: the holder was looked up in a map and the entry is deleted
+			// in the same critical section, with no unlock between the delete and the close — a
+			// second closer does not find the holder any more
+			removed := false
+			if len(held) > 0 {
+				if base, _, isL := fieldLoad(ch); isL {
+					hv := stripIface(w.resolveLoad(base))
+					if ex, isE := hv.(*ssa.Extract); isE && ex.Index == 0 {
+						hv = ex.Tuple
+					}
+					if lk, isLk := hv.(*ssa.Lookup); isLk && lk.Block() != nil {
+						blk := in.Block()
+						lo, hi := -1, -1
+						for i, nx := range blk.Instrs {
+							if dc, isC := nx.(*ssa.Call); isC {
+								if b, isB := dc.Call.Value.(*ssa.Builtin); isB && b.Name() == "delete" && len(dc.Call.Args) == 2 &&
+									w.sameKey(dc.Call.Args[0], lk.X) && (dc.Call.Args[1] == lk.Index || w.sameKey(dc.Call.Args[1], lk.Index)) {
+									lo = i
+								}
+							}
+							if nx == ssa.Instruction(call) {
+								hi = i
+							}
+						}
+						if lo >= 0 && hi >= 0 {
+							if lo > hi {
+								lo, hi = hi, lo
+							}
+							removed = true
+							for i := lo; i <= hi; i++ {
+								if nc, isC := blk.Instrs[i].(ssa.CallInstruction); isC {
+									if lop := w.lockOpOf(nc.Common()); lop != nil && (lop.op == "Unlock" || lop.op == "RUnlock") {
+										removed = false
+									}
+								}
+							}
+						}
+					}
+				}
+			}
 			switch {
 			case guarded:
 				c.OK(rule, fname(fn), "close "+f.Name(), w.instrPos(in), "closed-test dominates the close (locks held: {"+held.str()+"})")
+			case removed:
+				c.OK(rule, fname(fn), "close "+f.Name(), w.instrPos(in), "the holder is deleted from the table it was looked up in within the same critical section ({"+held.str()+"}): no second closer can find it")
 			case nilGuard:
 				c.OK(rule, fname(fn), "close "+f.Name(), w.instrPos(in), "closed on the non-nil edge and reset to nil within the same critical section ({"+held.str()+"}): once only")
 			case nm(f) == "resultCh":
